@@ -229,7 +229,7 @@ Proof.
           apply trunc_app_cons. }
         destruct catch; simpl; (split; [eapply same_above; eassumption|simpl; rewrite Hl; reflexivity]).
       * destruct catch; exact I.
-    + (* KEvalFn: stays above, although not restored *)
+    + (* KEvalFn: capture; CallFunction; Run; restore on error *)
       set (c1 := call_function 9 c).
       pose proof (run_frame body HF c1) as HR.
       assert (Hc1 : above c0 c1).
@@ -237,10 +237,12 @@ Proof.
       destruct (exec_list (capture c1) body c1) as [c2|c2|]; simpl.
       * destruct HR as [Hab Hl]. split; [eapply above_trans; eassumption|rewrite Hl; reflexivity].
       * destruct HR as [Hss Hl].
-        assert (Hab : above c0 (jump (v_cur (capture c1)) fsize (restore (capture c1) c2))).
-        { destruct Hss as (H1 & H2 & H3). destruct Hc1 as (d & s & a & H4 & H5 & H6).
-          exists d, s, a. simpl in *. rewrite H1, H2, H3. auto. }
-        destruct catch; simpl; (split; [assumption|simpl; rewrite Hl; reflexivity]).
+        assert (Hsame : same_stacks c (restore (capture c) (jump (v_cur (capture c1)) fsize (restore (capture c1) c2)))).
+        { destruct Hss as (H1 & H2 & H3). unfold same_stacks, restore, capture, jump in *. simpl in *.
+          rewrite H1, H2, H3. subst c1. simpl. rewrite !trunc_self.
+          split; [reflexivity|split; [reflexivity|]].
+          apply trunc_cons. }
+        destruct catch; simpl; (split; [eapply same_above; eassumption|simpl; rewrite Hl; reflexivity]).
       * destruct catch; exact I.
   - (* AGenLoop *)
     intros body HF base c0 c Hs Ha. simpl. rewrite inner_exec_list.
@@ -277,12 +279,11 @@ Proof.
   rewrite H1, H2, H3, H4. reflexivity.
 Qed.
 
-(* the local contract of the restoring re-entries: on error the caller gets back exactly the state it had *)
+(* the local contract of EVERY re-entry: on error the caller gets back exactly the state it had *)
 Theorem reentry_restores_proof : forall k body base c c',
-  k <> KEvalFn ->
   exec base (AReenter k false body) c = Err c' -> same_ctrl c c'.
 Proof.
-  intros k body base c c' Hk H. destruct k; [| |congruence]; simpl in H; rewrite !inner_exec_list in H.
+  intros k body base c c' H. destruct k; simpl in H; rewrite !inner_exec_list in H.
   - set (c1 := call_function 7 (jump (cur c) (-2) c)) in *.
     pose proof (run_frame body (all_ok_list body) c1) as HR.
     destruct (exec_list (capture c1) body c1) as [c2|c2|]; try discriminate.
@@ -298,6 +299,13 @@ Proof.
     unfold same_ctrl, same_stacks, restore, capture. simpl. rewrite H1, H2, H3. subst c1. simpl in *.
     rewrite !trunc_app. repeat split; try assumption.
     apply trunc_app_cons.
+  - set (c1 := call_function 9 c) in *.
+    pose proof (run_frame body (all_ok_list body) c1) as HR.
+    destruct (exec_list (capture c1) body c1) as [c2|c2|]; try discriminate.
+    inversion H; subst c'; clear H. destruct HR as [(H1 & H2 & H3) Hl].
+    unfold same_ctrl, same_stacks, restore, capture, jump in *. simpl in *.
+    rewrite H1, H2, H3. subst c1. simpl. rewrite !trunc_self.
+    repeat split; try assumption. apply trunc_cons.
 Qed.
 
 Lemma catch_false : forall r, catch_out false r = r.
@@ -310,26 +318,23 @@ Proof.
     match goal with |- catch_out _ ?r = _ => destruct r end; reflexivity.
 Qed.
 
-(* a host that catches the error of a restoring re-entry continues from the state it had *)
+(* a host that catches the error of a re-entry continues from the state it had *)
 Corollary caught_reentry_invisible_proof : forall k body base c c',
-  k <> KEvalFn ->
   exec base (AReenter k true body) c = OK c' ->
   (exec base (AReenter k false body) c = Err c' /\ same_ctrl c c')
   \/ exec base (AReenter k false body) c = OK c'.
 Proof.
-  intros k body base c c' Hk H. rewrite reenter_unfold in H.
+  intros k body base c c' H. rewrite reenter_unfold in H.
   destruct (exec base (AReenter k false body) c) as [c2|c2|] eqn:E; simpl in H.
   - right. assumption.
   - left. inversion H; subst. split; [reflexivity|]. eapply reentry_restores_proof; eassumption.
   - discriminate.
 Qed.
 
-(* EvalFunction does NOT give the caller its state back: the address pushed by CallFunction stays *)
 Definition c_rest : ctrl := mkCtrl [] [0%Z] [] 0 1%Z 5%Z.
 
-Theorem evalfn_leaves_address_proof :
-  exists c', exec (capture c_rest) (AReenter KEvalFn false [AFail]) c_rest = Err c'
-             /\ length (astk c') = S (length (astk c_rest)) /\ cur c' <> cur c_rest.
-Proof.
-  eexists. split; [vm_compute; reflexivity|]. split; [reflexivity|]. vm_compute. discriminate.
-Qed.
+(* regression witness of the former finding evalfunction-no-restore (fixed in /repo by 4b37dbf):
+   a failed EvalFunction now hands back the state it was entered with *)
+Example evalfn_restores_witness :
+  exec (capture c_rest) (AReenter KEvalFn false [AFail]) c_rest = Err c_rest.
+Proof. vm_compute. reflexivity. Qed.
